@@ -188,3 +188,23 @@ Proof.
   split; [vm_compute; intros [H|H]; [discriminate H | exact H]|].
   split; [vm_compute; reflexivity|]. split; [vm_compute; auto|]. split; vm_compute; reflexivity.
 Qed.
+
+(* ---- C13, transitive form: d depends on a through b (and c); when d's function is entered a's
+   completion has been received ---- *)
+Definition tr5 : list label :=
+  [LPick A; LStart A; LExit A ONil; LRecvReal A; LPick B; LPick C; LStart B; LStart C;
+   LExit B ONil; LExit C ONil; LRecvReal B; LRecvReal C; LPick D].
+
+Example C13_transitive_hyps :
+  dsteps g cf (init_state []) tr5 = Some (after tr5) /\
+  (exists st', dstep g cf (after tr5) (LStart D) = Some st') /\ depends_on g D A.
+Proof.
+  split; [vm_compute; reflexivity|]. split; [vm_compute; eauto|].
+  apply (dep_trans g D B A); [vm_compute; auto | apply dep_edge; vm_compute; auto].
+Qed.
+
+Example C13_transitive_fires : In A (d_okdone (after tr5)) /\ d_thread (after tr5) A = Gone.
+Proof.
+  destruct C13_transitive_hyps as (H1 & (st' & H2) & H3).
+  exact (built_start_needs_all_dependencies gops cf tr5 (after tr5) D st' H1 H2 A H3).
+Qed.
